@@ -68,7 +68,7 @@ CHECKS = {
             "Machine-checked: get_path resolves every well-formed chain (any sector order) to exactly its sectors (C07_getPath_wf), whatever it returns is a chain of the table (C07_getPath_sound), and on EVERY table "
             "(cycles, self-links, cross-links, out-of-range links) it ends with a path of at most `size` sectors or one of two reported errors (C07_getPath_total, C07_getPath_cycle_reported); add_to_sector_links installs exactly "
             "the chain it is given (C07_addLinks_chain); the AKAI SAT walk terminates on every word table — Lean's termination checker accepted the lexicographic measure (2*#clean - [current clean], size - current), proof in Smpl.Alloc.akai_measure — and the "
-            "Roland walk terminates by structural recursion on its loop guard. Decoder soundness: C07_roland_sound / C07_akai_sound — every entry of the decoded link table is an end mark or exactly the step the FAT / SAT word of that sector prescribes (a link word names the next sector, an AKAI directory-flag word continues with the following sector), on every table the decoder accepts; hence C07_roland_path_follows_fat / C07_akai_path_follows_sat: any chain get_path resolves over the decoded table follows the raw table. Decoder completeness for Roland: C07_roland_wf — a chain that is well formed in the raw FAT (each word names the next cluster, the last is an end mark) and whose head no FAT word points to is installed whole whenever the decoder accepts the table, so get_path from its head resolves exactly it (invariants over the walk and the outer loop: rolandWalk_chain, addLinks_installs_path, LoopInv). Decoder completeness for AKAI: C07_akai_wf — for a table of at most 0xC000 entries (the real one has 11386), a file chain that is well formed in the raw SAT (each word names the next sector, the last word is 0xC000) is installed whole whenever the decoder accepts the table, with NO condition on the rest of the table (other chains may join it, a directory run may lead into it, its head need not be its lowest sector): invariant WInv over the well-founded walk (akaiWalk_complete, by functional induction), addLinks_c (consistent writes), AInv over the outer loop. Raw chains visit no sector twice (arawChain_nodup / rawChain_nodup), so no length premise is needed. AKAI directory areas: C07_akai_dir_run — a run of k >= 1 consecutive reserved-flag (0x4000 / 0x8000, mixed) sectors that no link word points into, that does not continue an earlier run and that is followed by a sector which is not reserved-flagged is installed as the chain d..d+k-1 ending with the last sector of the run, whatever word follows it and whatever else the table holds (akaiWalk_run: the walk through the run; akaiWalk_avoids: no other walk touches it; RInv over the outer loop). "
+            "Roland walk terminates by structural recursion on its loop guard. Decoder soundness: C07_roland_sound / C07_akai_sound — every entry of the decoded link table is an end mark or exactly the step the FAT / SAT word of that sector prescribes (a link word names the next sector, an AKAI directory-flag word continues with the following sector), on every table the decoder accepts; hence C07_roland_path_follows_fat / C07_akai_path_follows_sat: any chain get_path resolves over the decoded table follows the raw table. Decoder completeness for Roland: C07_roland_complete (Props/C07RP) — a chain that is well formed in the raw FAT (each word names the next cluster, the last is an end mark) and starts at an allocatable cluster is installed whole whenever the decoder accepts the table, so get_path from its head resolves exactly it — whatever else the table holds, also other words pointing at its head or into it (invariant: the chain is installed as soon as its head has been visited, and once the outer loop is past the head); C07_roland_wf is the earlier form with the extra premise that no word points at the head (invariants over the walk and the outer loop: rolandWalk_chain, addLinks_installs_path, LoopInv). Decoder completeness for AKAI: C07_akai_wf — for a table of at most 0xC000 entries (the real one has 11386), a file chain that is well formed in the raw SAT (each word names the next sector, the last word is 0xC000) is installed whole whenever the decoder accepts the table, with NO condition on the rest of the table (other chains may join it, a directory run may lead into it, its head need not be its lowest sector): invariant WInv over the well-founded walk (akaiWalk_complete, by functional induction), addLinks_c (consistent writes), AInv over the outer loop. Raw chains visit no sector twice (arawChain_nodup / rawChain_nodup), so no length premise is needed. AKAI directory areas: C07_akai_dir_run — a run of k >= 1 consecutive reserved-flag (0x4000 / 0x8000, mixed) sectors that no link word points into, that does not continue an earlier run and that is followed by a sector which is not reserved-flagged is installed as the chain d..d+k-1 ending with the last sector of the run, whatever word follows it and whatever else the table holds (akaiWalk_run: the walk through the run; akaiWalk_avoids: no other walk touches it; RInv over the outer loop). "
             "Tie: every raw AKAI table of 5 sectors over {free, EOF, both reserved flags, each link, out of range} and every small Roland table, decode + get_path from every start, model vs real code; property oracle computed from the raw words independently. "
             "Three genuine defects were found by this check and repaired (fix: commits 496f278, 38611f1, 60236d3)."
         ),
@@ -117,7 +117,7 @@ CHECKS = {
         text=(
             "Machine-checked: C12_swaps_host_independent — whichever of the three process lists make_transcoder builds and whatever the host byte order, channel c of a block has each sample byte-reversed exactly when its SOURCE STREAM's byte order differs from the destination's, "
             "one flag per decoded channel in source order (this is the statement the pinned code violated; fix a59da5e); C12_channels (an accepted transcoder has one output channel per source channel), C12_tail (trailing bytes < 1 frame never reach the output), "
-            "passLoop_flatten (passthrough = whole frames for every block size, in Props/C03). C12_pair / pipeLoop_pair — a left and a right mono stream of F frames each (the stereo pairs of AKAI and Roland) come out as exactly F interleaved frames, frame f = left frame f then right frame f, for every internal block size (induction over the pipeline loop). C12_pair_any / pipeLoop_pair_any — the same two streams with ANY two lengths Fa, Fb: the output starts with the min(Fa,Fb) interleaved frames and holds T frames with min(Fa,Fb) <= T <= max(Fa,Fb), for every internal block size (C12_pair_any_equal: equal lengths give exactly the interleaving). NOT yet proved: sources that are themselves interleaved, or more than two sources (validated exhaustively by the lattice and the oracle). "
+            "passLoop_flatten (passthrough = whole frames for every block size, in Props/C03). C12_pair / pipeLoop_pair — a left and a right mono stream of F frames each (the stereo pairs of AKAI and Roland) come out as exactly F interleaved frames, frame f = left frame f then right frame f, for every internal block size (induction over the pipeline loop). C12_pair_any / pipeLoop_pair_any — the same two streams with ANY two lengths Fa, Fb: the output starts with the min(Fa,Fb) interleaved frames and holds T frames with min(Fa,Fb) <= T <= max(Fa,Fb), for every internal block size (C12_pair_any_equal: equal lengths give exactly the interleaving). C12_single (Props/C12I) — ONE source stream of any number nch >= 1 of interleaved channels, any sample width, little- or big-endian, signed or not, any length (also with stray trailing bytes), for every host byte order and every internal block size: through the passthrough when its encoding equals the destination's and through the de-interleave / byte-order / re-interleave pipeline otherwise, the concatenated output is exactly the whole frames of the source in order, every sample in its place (hence every channel in its place), byte-reversed exactly when the source is big-endian; only the bytes that do not form a whole frame are dropped (block_single: de-interleaving a block with `reshape((-1, n)).T`, mapping every sample and re-interleaving gives the block's whole frames back, via everyNth_spec / encodeBlock_channels; pipeLoop_single / passLoop_single: induction over the block loop). This is the path of every mono sample and of CDDA's interleaved stereo. NOT yet proved: an interleaved source next to other sources, or more than two sources (validated exhaustively by the lattice and the oracle). "
             "Tie: exhaustive lattice 1..3 streams x {1,2,3} interleaved channels x width {1,2,4} x byte order per stream x lengths {0..3 frames + partial bytes} x block {1 frame, 2 frames, 4096} x host {LE, BE patched}, every source byte distinct."
         ),
         design_ref="DESIGN.md §4 C12",
@@ -125,7 +125,7 @@ CHECKS = {
     "C02": dict(
         technique="Lean 4 proof (window/reversal/chain-order theorems over the Roland model) + whole-image correspondence: independent Roland S-7xx writer -> real export/ls vs Lean parser model vs logical oracle",
         text=(
-            "Machine-checked: C02_window (a window inside the written words is exported as exactly those words, whatever follows them; reversed word-wise for the reverse modes), C02_mode_window (modes 1,3 end at the release end, the others at the sustain end, exactly 5,6 reversed), C02_chain_content / C02_cluster_read (content = clusters in chain order, each read whole), C02_sample (composition on the model), C02_file_clusters with C07_getPath_sound (the chain is the FAT's), reverseWords_enc / involutive. From the raw image: C02_clusters_from_image — if the FAT area parses and the RAW FAT holds a chain c whose head is an allocatable cluster no FAT word points to, the file starting there with leading-cluster offset top is exactly c minus its first top clusters, in chain order (parseFat_links + C07_roland_wf). The writer's side: C02_sample_record_roundtrip — a sample written as a 32-byte directory record and a 48-byte parameter record (names, FAT entry, five 32-bit loop points, loop mode, tuning bytes, leading-cluster offset, option byte, key; every other byte arbitrary) at the slots of sample i parses to exactly those values; C02_written_sample composes it with the raw FAT chain and C02_sample: the node the parser builds is (written record, clusters of the chain after the offset), and it exports exactly the window the loop mode addresses, reversed for the reverse modes, for every cluster order. "
+            "Machine-checked: C02_window (a window inside the written words is exported as exactly those words, whatever follows them; reversed word-wise for the reverse modes), C02_mode_window (modes 1,3 end at the release end, the others at the sustain end, exactly 5,6 reversed), C02_chain_content / C02_cluster_read (content = clusters in chain order, each read whole), C02_sample (composition on the model), C02_file_clusters with C07_getPath_sound (the chain is the FAT's), reverseWords_enc / involutive. From the raw image: C02_clusters_from_image — if the FAT area parses and the RAW FAT holds a chain c whose head is an allocatable cluster (other words may point at it or into the chain), the file starting there with leading-cluster offset top is exactly c minus its first top clusters, in chain order (parseFat_links + C07_roland_complete). The writer's side: C02_sample_record_roundtrip — a sample written as a 32-byte directory record and a 48-byte parameter record (names, FAT entry, five 32-bit loop points, loop mode, tuning bytes, leading-cluster offset, option byte, key; every other byte arbitrary) at the slots of sample i parses to exactly those values; C02_written_sample composes it with the raw FAT chain and C02_sample: the node the parser builds is (written record, clusters of the chain after the offset), and it exports exactly the window the loop mode addresses, reversed for the reverse modes, for every cluster order. "
             "Tie: gen_roland writes images from logical discs (7 loop modes, 6 rates, FAT version flag 1/2, contiguous/reversed/random/head-not-lowest chains, cluster_top 0-2, windows ending on k*9216, shared and orphan performances); the real tool's export and ls at every node are compared with the Lean model of the whole parser (ID area, FAT decode, directories, pointer lists, naming, WAV) and with PCM/rate computed from the logical disc. "
             "Modelled, not verified: construct's struct parsing is represented by explicit offsets (checked by the correspondence), numpy unique/reshape by sort+dedupe / word reversal."
         ),
